@@ -1,9 +1,10 @@
 #!/usr/bin/env python3
 """One-off generator: wires a `pbt_cNN` libFuzzer target (proptest strategy driven by PassThrough bytes) into a check.
    tools/add_pbt_fuzz_targets.py            -> adds the targets listed below that are not present yet"""
-targets = [('c04', 'Random', 'C04', 'random'), ('c15', 'UnionPart', 'C15', 'union'), ('c18', 'Random', 'C18', 'random'),
-           ('c19', 'QueryPart', 'C19', 'query'), ('c12', 'Histories', 'C12', 'histories'), ('c09', 'Random', 'C09', 'random'),
-           ('c06', 'Worlds', 'C06', 'worlds')]
+# measured under libFuzzer+ASAN: c09 60 exec/s, c18 85/s, c05 17/s, c19 6/s; c04/c06/c12/c15 need seconds per execution
+# (their oracles dominate the cost) and were dropped again
+# c18: 85/s at the start but 3/s once the corpus drifts to deep SLD trees (44 min for 48k executions): dropped as well
+targets = [('c09', 'Random', 'C09', 'random')]
 cargo = open('/verif/fuzz/Cargo.toml').read()
 for (b, part, pid, pname) in targets:
     p = f'/verif/harness/src/bin/{b}.rs'
